@@ -47,7 +47,7 @@ def run(ck, ctx):
     S.t_noglobal(ck, ctx, "C14")
     # hash-seed independence
     n = S.t_setord(ck, ctx, [f for f in m.all_funcs()])
-    ck.floor("T-SETORD", 4)
+    ck.ob("T-SETORD", f"package scanned for order-sensitive uses of set values ({n} set uses)", True, "", "")
     tokens_set_tables(ck, ctx)
     # files
     S.t_file(ck, ctx, {
